@@ -415,20 +415,40 @@ def judge_pairs(rows, exp):
 def zero_pair_mechanism(exp, shuffler, rows):
     """Classifier of 'pairs-any-zero-pair': the raw tree answer is the single pair
     (tree position 0, query 0), so that `pairs.any()` is False although a pair exists; query
-    then returns that raw pair - build index not translated - and the pair array again in
-    place of the distances."""
+    then takes the 'no pairs' exit: it returns that raw pair - build index not translated -
+    with the pair array in place of the distances, or (later revision) nothing at all."""
     if len(exp["must"]) != 1 or exp["may"]:
         return False        # band pairs would make the raw answer ambiguous
     (b, q), = exp["must"]
     pos0 = shuffler[0] if shuffler is not None else 0
-    return q == 0 and b == pos0 and list(rows) == [(0, 0)]
+    return q == 0 and b == pos0 and list(rows) in ([(0, 0)], [])
+
+
+def _fits_radius(fam, metric, rows, r_alt):
+    import numpy as np
+    must, may = fam.oracle.expect(metric, r_alt)
+    alt = {"must": set(zip(*[x.tolist() for x in np.nonzero(must)])),
+           "may": set(zip(*[x.tolist() for x in np.nonzero(may)]))}
+    return not judge_pairs(rows, alt)
 
 
 def classify_pairs(case, fam, exp, rows, shuffler, prob):
-    """Name the mechanism behind a wrong pair set."""
-    nb = len(case["blat"])
-    if zero_pair_mechanism(exp, shuffler, rows):
-        return "pairs-any-zero-pair"
+    """Name the mechanism behind a wrong pair set (best effort; the generic name is
+    'pair-set')."""
+    gm = fam.gm
+    metric = effective_metric(case)
+    num = unit = None
+    if isinstance(case["r"], str):
+        try:
+            num, unit = gm.parse_quantity(case["r"])
+        except ValueError:
+            pass
+    # 'cm-unit': one centimetre taken as 1e-6 km (instead of 1e-5 km)
+    if unit and gm.UNIT_FAMILY.get(unit) == "cm" and \
+            _fits_radius(fam, metric, rows, gm.LD(num) / gm.LD(10 ** 6)):
+        return "cm-unit"
+    if case.get("rd") is not False and zero_pair_mechanism(exp, shuffler, rows):
+        return "pairs-any-zero-pair"      # (the exit without distances never tests .any())
     if shuffler is not None and "duplicated" not in prob:
         # right after translating the build index through the permutation?
         try:
@@ -453,29 +473,13 @@ def classify_pairs(case, fam, exp, rows, shuffler, prob):
             for name, wrong in wrong_maps.items():
                 if wrong == set(rows) and wrong != exp["must"]:
                     return name
-    if isinstance(case["r"], str):
-        gm = fam.gm
-        try:
-            num, unit = gm.parse_quantity(case["r"])
-        except ValueError:
-            num, unit = None, None
-        if unit:
-            metric = effective_metric(case)
-            # the radius the result would be right for, among "number x other factor"
-            for fac_name, (p, q) in [("x1e-6", (1, 10 ** 6)), ("x1e-4", (1, 10 ** 4)),
-                                     ("x1e-2", (1, 100))] + list(gm.KM_PER_UNIT.items()):
-                r_alt = gm.LD(num) * gm.LD(p) / gm.LD(q)
-                if r_alt == exp["r_km"]:
-                    continue
-                must, may = fam.oracle.expect(metric, r_alt)
-                import numpy as np
-                alt = {"must": set(zip(*[x.tolist() for x in np.nonzero(must)])),
-                       "may": set(zip(*[x.tolist() for x in np.nonzero(may)]))}
-                if not judge_pairs(rows, alt):
-                    # 'cm-unit': one centimetre taken as 1e-6 km (instead of 1e-5 km)
-                    if gm.UNIT_FAMILY.get(unit) == "cm" and fac_name == "x1e-6":
-                        return "cm-unit"
-                    return "radius-unit"
+    if unit and rows:
+        # the radius the (non-empty) result would be right for, among "number x other factor"
+        for fac_name, (p, q) in [("x1e-6", (1, 10 ** 6)), ("x1e-4", (1, 10 ** 4)),
+                                 ("x1e-2", (1, 100))] + list(gm.KM_PER_UNIT.items()):
+            r_alt = gm.LD(num) * gm.LD(p) / gm.LD(q)
+            if r_alt != exp["r_km"] and _fits_radius(fam, metric, rows, r_alt):
+                return "radius-unit"
     return "pair-set"
 
 
